@@ -277,8 +277,8 @@ func vIDSet(m map[uint32]float64) []uint32 {
 }
 
 // C16 (3) store shards are provided by zz_verif_c10.go (set in its init).
-var vC16StoreShards = func(tier string) []vShard { return nil }
-var vC16StoreReplay = func(c *vCtx, v *vViolation) bool { return false }
+var vC16StoreShards func(tier string) []vShard
+var vC16StoreReplay func(c *vCtx, v *vViolation) bool
 
 // vCanonStoreLight: like vCanonStore but with the file system summarised by the
 // incremental hash of its (append-only) operation log instead of content hashes.
